@@ -278,8 +278,24 @@ def main():
     nontriv = set()
     samples = []
     skipped = 0
+    import signal
+
+    class _Hang(BaseException):
+        pass
+
+    def _alarm(_sig, _frm):
+        raise _Hang()
+    signal.signal(signal.SIGVTALRM, _alarm)
     for sc in cases(size, seed, limit):
-        ok, detail = run_scenario(sc)
+        # one case takes well under a millisecond; a case that has used 30 s of CPU time does not terminate (a failure of its
+        # own: unification of finite terms over an acyclic store ends)
+        signal.setitimer(signal.ITIMER_VIRTUAL, 30)
+        try:
+            ok, detail = run_scenario(sc)
+        except _Hang:
+            ok, detail = False, 'did not finish within 30 s of CPU time'
+        finally:
+            signal.setitimer(signal.ITIMER_VIRTUAL, 0)
         n += 1
         if detail.startswith('skipped'):
             skipped += 1
